@@ -3,7 +3,9 @@ import GoCrypt.Driver.State
 import GoCrypt.Driver.Codec
 import GoCrypt.Spec.SecretSafe
 import GoCrypt.Spec.FlowSem
+import GoCrypt.Spec.Accepts
 import GoCrypt.Gen.Flow
+import GoCrypt.Gen.SliceIR
 
 namespace GoCrypt.Driver
 open Bytes GoCrypt GoCrypt.Scheme
@@ -35,6 +37,16 @@ def handleScheme : List String → Option String
     match S.guards a with
     | .error e => pure s!"err {e.type} {e.num} {toHex e.str}"
     | .ok _ => pure "accept"
+  | "accepts" :: scheme :: args => do
+    -- the declarative bounds specification (Spec/Accepts.lean), independent of the regenerated guards
+    let a ← parseKeyArgs args
+    let spec ← match scheme with
+      | "md5" => some Accepts.md5 | "sha256" => some Accepts.sha256 | "sha512" => some Accepts.sha512 | "sha1" => some Accepts.sha1
+      | "sunmd5" => some Accepts.sunmd5 | "des" => some Accepts.des | "desext" => some Accepts.desext | "bcrypt" => some Accepts.bcrypt
+      | "nthash" => some Accepts.nthash | "argon2" => some Accepts.argon2 | _ => none
+    match spec.verdict a with
+    | some e => pure s!"err {e.type} {e.num} {toHex e.str}"
+    | none => pure "accept"
   | ["check", scheme, h, pw, rand] => do
     let S ← byName scheme
     let h ← ofHex h
@@ -76,6 +88,34 @@ def handleScheme : List String → Option String
           | some t' => find t' (k + 1) rest
           | none => s!"statement {k}: {(toString (repr st)).replace "\n" " "}"
       pure ("unsafe " ++ ((find [] 0 prog).replace "  " " "))
+  | ["sliceeffects", pkg] => do
+    let (prog, vars, globs) ← match pkg with
+      | "argon2" => some (Gen.argon2.keySlices, Gen.argon2.keySliceVars, Gen.argon2.keySliceGlobals)
+      | "bcrypt" => some (Gen.bcrypt.keySlices, Gen.bcrypt.keySliceVars, Gen.bcrypt.keySliceGlobals)
+      | "des" => some (Gen.des.keySlices, Gen.des.keySliceVars, Gen.des.keySliceGlobals)
+      | "desext" => some (Gen.desext.keySlices, Gen.desext.keySliceVars, Gen.desext.keySliceGlobals)
+      | "md5" => some (Gen.md5.keySlices, Gen.md5.keySliceVars, Gen.md5.keySliceGlobals)
+      | "nthash" => some (Gen.nthash.keySlices, Gen.nthash.keySliceVars, Gen.nthash.keySliceGlobals)
+      | "sha1" => some (Gen.sha1.keySlices, Gen.sha1.keySliceVars, Gen.sha1.keySliceGlobals)
+      | "sha256" => some (Gen.sha256.keySlices, Gen.sha256.keySliceVars, Gen.sha256.keySliceGlobals)
+      | "sha512" => some (Gen.sha512.keySlices, Gen.sha512.keySliceVars, Gen.sha512.keySliceGlobals)
+      | "sunmd5" => some (Gen.sunmd5.keySlices, Gen.sunmd5.keySliceVars, Gen.sunmd5.keySliceGlobals)
+      | _ => none
+    if SliceIR.argSafe prog && SliceIR.resultFresh prog then pure "pure" else
+      let r := SliceIR.solve prog
+      let vn (x : Nat) : String := vars.getD x s!"v{x}"
+      let showRoot : SliceIR.Root → String
+        | .param i => s!"argument {i}"
+        | .fresh => "fresh"
+        | .global g => "package variable " ++ globs.getD g s!"g{g}"
+      let rootsOf (x : Nat) : String := ", ".intercalate ((r.of x).map showRoot)
+      let bad := prog.filterMap fun st => match st with
+        | .write x => if SliceIR.onlyFresh (r.of x) then none else some s!"store into {vn x} (may be: {rootsOf x})"
+        | .appendTo _ y => if SliceIR.onlyFresh (r.of y) then none else some s!"append to {vn y} (may be: {rootsOf y})"
+        | .ret x => if SliceIR.onlyFresh (r.of x) && !(r.of x).isEmpty then none else some s!"returns {vn x} (may be: {rootsOf x})"
+        | .unknown d => some s!"untranslated statement {d}"
+        | _ => none
+      pure ("impure " ++ (if !SliceIR.stable prog then "fixpoint not reached in the fixed number of passes; " else "") ++ "; ".intercalate (bad.take 4))
   | "observed" :: _ => some "ok"     -- an implementation-only observation (the property's direct check); nothing to model
   | ["cache-facts", alias, ptrKeys] =>
     -- the protocol theorems of C08/C18 assume: getTypeInfo returns a private copy, entries are keyed by the dereferenced type
